@@ -14,7 +14,7 @@ RULE = ("N=1: all 576 ordered pairs and all 13824 triples of the 24 maps; N=2: a
 ASSUMPTIONS = ["operands are valid maps; composition a.compose(b) means 'a first, then b'",
                "oracle composition = images of a's rows under b by table products; inverse by GF(2) inverse + phase solve"]
 REQUIRED_SUBS = ["assoc", "seq_vs_compose", "neutral.l", "neutral.r", "inv.l", "inv.r", "inv.antihom", "vs_oracle.compose",
-                 "vs_oracle.inverse", "immutable", "fresh", "z2inv", "history.inverse", "history.compose"]
+                 "vs_oracle.inverse", "immutable", "fresh", "z2inv", "history.inverse", "history.compose", "retained"]
 
 
 def shards(tier):
@@ -38,6 +38,9 @@ def shards(tier):
         out.append({"name": "n2.np.jit.%d" % k, "mode": "jit", "backend": "np", "fn": "n2", "lo": k * per, "hi": (k + 1) * per,
                     "partners": 3 if q else 40})
     return out
+
+
+RETAINED = {}
 
 
 def run(shard, rec, B):
@@ -113,6 +116,13 @@ def single_laws(rec, B, a, rng):
         return
     xg, xp = O.map_inverse(ag, ap)
     rec.check("vs_oracle.inverse", _eq(B, Ai, xg, xp), case, nt, expected=_show(xg, xp), observed=_show(*B.gsps(Ai)))
+    # results handed out earlier (possibly for other maps of the same size) must still be what they were
+    RET = RETAINED.setdefault((B.name, N), [])
+    for (old_obj, og_, op_, what) in RET:
+        rec.check("retained", _eq(B, old_obj, og_, op_), {"N": N, "result_of": what}, True, expected="unchanged result of an earlier call",
+                  observed=_show(*B.gsps(old_obj))[:6])
+    RET.append((Ai, xg.copy(), np.asarray(xp).copy(), "inverse"))
+    del RET[:-3]
     rec.check("immutable", not snap_diff(sa, snapshot(A)), case, nt)
     rec.check("fresh", not shares_memory(Ai, A) and isinstance(Ai, B.stabilizer.CliffordMap), case, nt)
     ok, R = rec.attempt("inv.compose", case, lambda: (A.compose(Ai), Ai.compose(A), Ai.inverse()))
